@@ -452,6 +452,13 @@ fn cmd_run(a: &Args) -> i32 {
                 cfg0.alloc_mode = alloc::MODE_SCATTER;
                 cfg0.hard_exit = false;
                 let (first, srcdesc) = match src {
+                    0 if (this / 6) % 24 == 5 => {
+                        // wide groups: dozens of work-list entries pending at once, in layout order
+                        let (ops, desc) = gen::double_hub_ops(this / 6, seed);
+                        let mut it = ops.into_iter();
+                        let mut g = |_: &World| it.next();
+                        (run::run_history(&cfg0, &mut g, 100_000), format!("family[{}]", desc))
+                    }
                     0 => {
                         let (ops, desc) = gen::family_ops(this / 6, seed, Class::Full, 10);
                         let mut it = ops.into_iter();
@@ -626,9 +633,9 @@ fn cmd_run(a: &Args) -> i32 {
                 });
                 (res, format!("diff seed={} idx={} pseed={} len={}", seed, this, pseed, len))
             }
-            None if gen == "nodrop" => {
+            None if gen == "nodrop" || gen == "nodropconsume" => {
                 let mut res = empty_result();
-                let desc = nodrop::run(this, seed, &mut res);
+                let desc = nodrop::run(this, seed, gen == "nodropconsume", &mut res);
                 (res, format!("nodrop seed={} idx={} [{}]", seed, this, desc))
             }
             None if gen == "deadclone" || gen == "deaddrop" || gen == "deadclonelate" || gen == "deadclonepanic" || gen == "deadcloneafterweak" || gen == "deadclonefrom" => {
